@@ -219,7 +219,11 @@ class VStructuralTranslatorL1( StructuralTranslatorL1 ):
     return var_id.replace( '[', '__' ).replace( ']', '' )
 
   def _literal_number( s, nbits, value ):
-    return f"{nbits}'d{int(value)}"
+    value = int(value)
+    if value < 0:
+      # N'd-3 is not a number in Verilog
+      return f"-{nbits}'d{-value}"
+    return f"{nbits}'d{value}"
 
   def rtlir_tr_literal_number( s, nbits, value ):
     return s._literal_number( nbits, value )
